@@ -110,6 +110,8 @@ def run(c, facts, tier):
     guile = json.load(open(GUILE))
     from .. import glue
 
+    emit.set_taint_carriers(facts)
+
     glue.obligations(c, facts, peg.Builder(facts), "C04")
     c.trusted = ["E1 extractor", "emission interpreter", "spec/guile_string.json (Guile's string read syntax and format directive character; agreement with the real reader is not checked)"]
     c.explanation = (
@@ -135,6 +137,16 @@ def run(c, facts, tier):
         )
     sites, sk = collect_sites(facts)
     c.analysed["emission_sites"] = len(sites)
+    # fail closed: the taint and balance rules speak about the paths the interpreter produced; a construct it did not model
+    # may write text that is on none of them
+    for key in codegen.COMPILE_IMPLS:
+        unk = sorted({u for r in codegen.table(facts, key) for u in r["unknown"]})
+        c.ob("C04.modelled", key, "every construct of the generator was interpreted", not unk, "unmodelled constructs: %s" % unk[:4] if unk else "all paths fully interpreted", nontrivial=False)
+    for M in codegen.MANAGERS:
+        for meth in ("get_printer", "get_file_printer", "get_matcher"):
+            k = codegen.mgr_key(facts, M, meth)
+            unk = sorted({u for r in codegen.table(facts, k, codegen.AFF()) for u in r["unknown"]})
+            c.ob("C04.modelled", k, "every construct of the generator was interpreted", not unk, "unmodelled constructs: %s" % unk[:4] if unk else "all paths fully interpreted", nontrivial=False)
     seen_taint = set()
     nholes = 0
     for s in sites:
